@@ -202,12 +202,12 @@ def load_known():
 
 
 def match_known(pid, finding, known):
-    """a finding is `known` iff the specification explains the observed state by a named deviation that the
-    committed known-findings file lists for this property"""
+    """a finding is `known` iff the specification explains EVERY failing clause attributed to the property by
+    one named deviation (spec/HgTrace.tla, DevFor) that the committed known-findings file lists for it"""
+    if len(finding.devs) != 1 or not finding.devs[0]:
+        return None
     for k in known:
-        if k["property"] != pid:
-            continue
-        if k.get("dev") and finding.devs == [k["dev"]]:
+        if pid in k["properties"] and k["dev"] == finding.devs[0]:
             return k
     return None
 
